@@ -6,7 +6,7 @@ registration (order, default) is a scheduled operation of the session.
 """
 import io
 
-from sim import interp, netview, seams
+from sim import interp, netview, procs, seams
 from sim.choices import Choices, hash64
 from sim.procs import template_init
 
@@ -320,7 +320,33 @@ def snapshot(mods):
     return snap
 
 
-def execute(scn):
+def run(scn):
+    """The session in a child of this (pristine) process; then, in further children of it, the
+    requests picked for the history check, each compiled alone."""
+    res = procs.in_child(_session, scn, timeout=60)
+    queries = res.pop("alone_queries", [])
+    for q in queries:
+        if res["findings"]:
+            break
+        try:
+            alone = procs.in_child(exec_alone, (scn, q["r"]), timeout=60)
+        except procs.ChildFailure:
+            alone = {}
+        name = "alone_compile_failed"
+        if alone.get("dev") is not None:
+            name = "same_as_alone_in_fresh_process"
+            if alone != q["here"]:
+                res["findings"].append({"prop": "C15", "clause": "size-depends-on-history", "detail": [f"PM{q['mid']}.{q['iname']}: request {q['r'][:2]} gives {q['here']['dev']} {q['here']['params'][:200]} in this design, and {alone['dev']} {alone['params'][:200]} when it is the only device a fresh process compiles"]})
+                continue
+        res["probes"][name] = res["probes"].get(name, 0) + 1
+    return res
+
+
+def execute(scn):  # replay / minimisation entry: same as run, but callable through in_child
+    return run(scn)
+
+
+def _session(scn):
     T = template_init(with_pdks=True)
     h = T["h"]
     seams.set_sched(seams.Sched(scn["sched"][0], scn["sched"][1]))
@@ -343,6 +369,7 @@ def execute(scn):
         res["discard"] = f"design build failed: {interp.norm_exc(e)}"
         return res
     top = mods[-1]
+    scn = dict(scn, _alone_budget=5, _alone=[])
     groups = [(mods, expects)] + ([(tmods, texpects)] if scn.get("twin") else [])
     bogus = any(e.get("bogus") for e in expects.values())
     from hdl21.pdk import pdk as P
@@ -445,6 +472,7 @@ def execute(scn):
     res["nontrivial"] = compiled_ok
     res["sig"] = hash64(str(scn["mods"]), str(scn["ops"]))
     res["sched"] = seams.get_sched().stats()
+    res["alone_queries"] = scn["_alone"]
     return res
 
 
@@ -535,6 +563,16 @@ def check_compile(h, scn, mods, expects, before, after, pdkname, repeat, fail, p
             if exp["kind"] in ("mos", "res", "cap") and given:
                 _check_sizes(h, new_of, given, mid, iname, fail, probe)
             _check_defaults(h, pdkname, new_of, exp, mid, iname, fail, probe)
+            # ... and "the PDK's defaults" are the same whatever was compiled before: the request, alone
+            # in a fresh process, gives the very same device call (checked for a few requests per run)
+            k_ = int(iname[1:])
+            if mods is not None and scn.get("_alone_budget", 0) > 0 and k_ < len(scn["mods"][mid]["insts"]):
+                r = scn["mods"][mid]["insts"][k_]
+                # (spent where history could matter: another device of the kind gives a size this one leaves out)
+                others = [r2 for m2, sp in enumerate(scn["mods"]) for k2, r2 in enumerate(sp["insts"]) if (m2, k2) != (mid, k_) and r2[0] == r[0]]
+                if any(r[1].get(f) is None and r2[1].get(f) is not None for r2 in others for f in ("w", "l", "mult", "nf")):
+                    scn["_alone_budget"] -= 1
+                    scn["_alone"].append({"mid": mid, "iname": iname, "r": r, "here": {"dev": new_of.module.name, "params": _prepr(new_of.params)}})
             # equal primitive parameters -> the same device call
             key = (type(old_of.params).__name__, old_of.params)
             try:
@@ -546,6 +584,25 @@ def check_compile(h, scn, mods, expects, before, after, pdkname, repeat, fail, p
                 by_params[key] = new_of
             except TypeError:
                 pass
+
+
+def _prepr(p):
+    return repr(sorted(p.items())) if isinstance(p, dict) else repr(p)
+
+
+def exec_alone(arg):
+    """In a fresh child: the one request, compiled on its own."""
+    scn, r = arg
+    T = template_init(with_pdks=True)
+    h = T["h"]
+    scn1 = dict(scn, mods=[{"insts": [r], "subs": []}], twin=False)
+    try:
+        mods, _ = build_design(h, scn1, tables(scn["target"]))
+        pdk_module(scn["target"]).compile(mods[0])
+        of = mods[0].instances["d0"].of
+        return {"dev": of.module.name, "params": _prepr(of.params)}
+    except Exception as e:  # noqa
+        return {"exc": interp.norm_exc(e)}
 
 
 def _check_sizes(h, call, given, mid, iname, fail, probe):
